@@ -85,7 +85,7 @@ def o04_1(tier):
                         ctx.ensure(ctx.zero(L[row][pos]), f"row {row}: zero for cell {cid}")
                 ctx.ensure(ctx.close(R[row], tens[beid] * kap[beid]), f"row {row}: rhs = tension x total curvature")
         return h
-    return [(f"{s},k={k}", mk(s, k)) for s in ("tri_star", "double_y", "border_fan") for k in ((1,) if tier == "quick" else (0, 1, 3))]
+    return [(f"{s},k={k}", mk(s, k)) for s in ("tri_star", "double_y", "border_fan", "tri_star_ear") for k in ((1,) if tier == "quick" else (0, 1, 3))]
 
 
 @obligation("O04.7", ["C04", "C10"], [GM + "solve_system", GM + "add_lagrange_multiplier", "forsys.forsys:ForSys.solve_pressure",
@@ -134,7 +134,7 @@ def o04_7(tier):
             for col, cid in enumerate(cids):
                 ctx.ensure(ctx.eq(ctx.get(m.c[cid], "pressure"), sol[col]), f"cell {cid} carries its own pressure")
         return h
-    out = [(f"{s},k=1", mk(s, 1, False)) for s in ("tri_star", "border_fan")]
+    out = [(f"{s},k=1", mk(s, 1, False)) for s in ("tri_star", "border_fan", "tri_star_ear")]
     out.append(("tri_star,k=1,singular", mk("tri_star", 1, True)))
     if tier != "quick":
         out.append(("double_y,k=1", mk("double_y", 1, False)))
